@@ -13,14 +13,19 @@
 #define protected public
 #define private public
 #include "values.h"
+#include "layout.h"
+#include "graphic.h"
+#include "collection.h"
+#include "node.h"
 #undef protected
 #undef private
+#include <functional>
 
 using namespace sim;
 using namespace mpt;
 
-enum { OP_COUNTER, OP_TAKE, OP_DROP, OP_WRAP_ASSIGN, OP_REFARRAY_SET, OP_REFARRAY_CLONE, OP_REFARRAY_WRITE, OP_REFARRAY_RELEASE, OP_CXXREF, OP_LIB_TAKE, OP_LIB_DROP, OP_LIB_NEW, OP_BUF_CLONE, OP_MISMATCH_CLONE, OP_CXX_REFARRAY, OP_CXX_ITEMS };
-static const char *const OPS[] = {"COUNTER", "TAKE", "DROP", "ASSIGN_BY_CONVERSION", "REFARRAY_SET", "REFARRAY_CLONE", "REFARRAY_WRITE", "REFARRAY_RELEASE", "CXX_REFERENCE", "LIB_TAKE", "LIB_DROP", "LIB_NEW", "BUFFER_CLONE", "MISMATCHED_CLONE", "CXX_REFERENCE_ARRAY", "CXX_ITEM_ARRAY", 0};
+enum { OP_COUNTER, OP_TAKE, OP_DROP, OP_WRAP_ASSIGN, OP_REFARRAY_SET, OP_REFARRAY_CLONE, OP_REFARRAY_WRITE, OP_REFARRAY_RELEASE, OP_CXXREF, OP_LIB_TAKE, OP_LIB_DROP, OP_LIB_NEW, OP_BUF_CLONE, OP_MISMATCH_CLONE, OP_CXX_REFARRAY, OP_CXX_ITEMS, OP_PLOT, OP_ADD_ITEMS };
+static const char *const OPS[] = {"COUNTER", "TAKE", "DROP", "ASSIGN_BY_CONVERSION", "REFARRAY_SET", "REFARRAY_CLONE", "REFARRAY_WRITE", "REFARRAY_RELEASE", "CXX_REFERENCE", "LIB_TAKE", "LIB_DROP", "LIB_NEW", "BUFFER_CLONE", "MISMATCHED_CLONE", "CXX_REFERENCE_ARRAY", "CXX_ITEM_ARRAY", "PLOT_OBJECTS", "ADD_ITEMS", 0};
 enum { FL_NONE, FL_ALLOC, FL_REFUSE };
 static const char *const FAULTS[] = {"none", "allocfail", "refuse_addref", 0};
 
@@ -49,6 +54,18 @@ struct HObj : public metatype {
 };
 static int lib_send(void *, const reply_data *, const message *) { return 0; }
 
+// plot data: the C++ layout / graph / world / axis / cycle classes, counted by the library's own reference<T>::type;
+// the harness only observes construction and destruction
+static std::set<const void *> g_plot_live;
+template <typename T> struct Tr : public reference<T>::type {
+	Tr() { g_plot_live.insert(id()); }
+	~Tr() { Harness h; g_plot_live.erase(id()); }
+	const void *id() const { return static_cast<const metatype *>(this); }
+	long count() const { return (long) this->_ref.value(); }
+};
+struct PObj { metatype *mt; const void *id; std::function<long()> count; long mine; int level; const char *what; int nr; };
+
+
 struct CArr { buffer *buf; };
 static inline array *AR(CArr &c) { return reinterpret_cast<array *>(&c); }
 
@@ -62,6 +79,7 @@ struct RefsWorld : World {
 		       "\"stub\":[\"harness metatype objects counting addref/unref, refusing a reference when the plan says so\",\"allocator (ledger + n-th allocation fails)\",\"holder-count reference model\"]}";
 	}
 	RefsWorld() {
+		registry_global = true;      // types registered on first use (the plot classes register many) live as long as the process
 		mpt_meta_reference_traits(); mpt_type_traits('c');
 		// lazily created process-global state of the further object kinds
 		mpt_input_type_traits();
@@ -74,7 +92,7 @@ struct RefsWorld : World {
 		int nops = (int) r.range(1, tier ? 100 : 50);
 		bool allocf = r.chance(1, 3), refuse = r.chance(1, 2);
 		for (int i = 0; i < nops; ++i) {
-			Op op; op.kind = (int) r.below(16);
+			Op op; op.kind = (int) r.below(18);
 			op.a = r.below(3) | (r.below(3) << 8) | (r.below(4) << 16); // object, second object, holder slot
 			op.b = r.below(6); op.c = r.below(1000);
 			if (refuse && r.chance(1, 4)) op.fault = FL_REFUSE;
@@ -363,6 +381,173 @@ struct RefsWorld : World {
 					fail(alive(i) && obj[i]->refs > before[i] ? "never-destroyed" : "destroyed-early", "after a C++ %s went away object %d counts %ld references, %ld before the episode", items ? "item_array" : "reference_array", i, alive(i) ? obj[i]->refs : 0, before[i]);
 				log.ev("%s episode", OPS[op.kind]);
 				outcome = 1;
+				break;
+			}
+			case OP_PLOT: {
+				// episode on the plot objects: layouts registered with a graphic, graphs as items of layouts, worlds and axes as items of
+				// graphs, cycles (the plot data) held by world entries of graphs and by a cycle mapping.  Every library holder owns one
+				// reference; the harness owns `mine`.  Checked all the way: nothing the harness still references is destroyed, no count
+				// falls below the harness' share; at the end the holders go away top-down and each count must equal the harness' share
+				// exactly before the harness lets go, after which the object must be gone.
+				uint32_t x = (uint32_t) op.c * 2654435761u + 7u + (uint32_t) op.b * 977u;
+				size_t led0 = ledger_live();
+				std::vector<PObj> po;
+				auto reg = [&](auto *t, int level, const char *what, int nr) { PObj o; o.mt = t; o.id = t->id(); o.count = [t] { return t->count(); }; o.mine = 1; o.level = level; o.what = what; o.nr = nr; po.push_back(o); };
+				Tr<layout> *LY[2]; Tr<layout::graph> *GR[2]; Tr<layout::graph::world> *WD[2]; Tr<layout::graph::axis> *AX[2]; Tr<cycle> *CY[2];
+				graphic *G; graphic::mapping *M;
+				{ Sut su; G = new graphic; M = new graphic::mapping;
+				  for (int i = 0; i < 2; ++i) { LY[i] = new Tr<layout>; GR[i] = new Tr<layout::graph>; WD[i] = new Tr<layout::graph::world>; AX[i] = new Tr<layout::graph::axis>; CY[i] = new Tr<cycle>; } }
+				for (int i = 0; i < 2; ++i) { reg(LY[i], 0, "layout", i); reg(GR[i], 1, "graph", i); reg(WD[i], 2, "world", i); reg(AX[i], 2, "axis", i); reg(CY[i], 3, "cycle", i); }
+				auto P = [&](const void *id) -> PObj & { for (auto &o : po) if (o.id == id) return o; return po[0]; };
+				auto is_alive = [&](const PObj &o) { return g_plot_live.count(o.id) != 0; };
+				metatype *clone_g = 0, *clone_l = 0;
+				reference<cycle> hc[2];        // copies of references to cycles the library created
+				auto cycle_alive = [&](cycle *c) { const void *id = static_cast<const metatype *>(c); for (auto &o : po) if (o.id == id) return g_plot_live.count(id) != 0; return ledger_covers(c); };
+				auto verify = [&](const char *after) {
+					check_pending();
+					for (auto &o : po) {
+						if (o.mine > 0 && !is_alive(o)) fail("destroyed-early", "after %s: %s %d was destroyed while the harness holds %ld reference(s)", after, o.what, o.nr, o.mine);
+						if (is_alive(o) && o.count() < o.mine) fail("count-mismatch", "after %s: %s %d counts %ld reference(s), the harness alone holds %ld", after, o.what, o.nr, o.count(), o.mine);
+					}
+					for (auto &h : hc) if (h.instance() && !cycle_alive(h.instance())) fail("destroyed-early", "after %s: a cycle was destroyed while a copy of the reference a graph keeps to it exists", after);
+				};
+				// hand one reference to a library holder: taken first, given back if the library did not accept it
+				auto give = [&](PObj &o, const std::function<bool()> &fn) -> bool {
+					if (!is_alive(o)) return false;
+					uintptr_t r; { Sut su; r = o.mt->addref(); }
+					if (!r) fail("refused-valid", "%s %d refused a reference", o.what, o.nr);
+					bool ok = fn();
+					if (!ok) { Sut su; o.mt->unref(); }
+					return ok;
+				};
+				const int steps = 8 + (int) (op.c % 3) * 8;
+				for (int k = 0; k < steps; ++k) {
+					x = x * 1664525u + 1013904223u;
+					unsigned act = (x >> 12) % 15; int i = (x >> 8) & 1, j = (x >> 9) & 1, w = (x >> 10) & 1;
+					uint64_t fn = ((x >> 4) & 3) == 0 ? 1 + ((x >> 6) % 3) : 0; bool fired = false;
+					char nm[24]; snprintf(nm, sizeof nm, (x & 0x20000) ? "a-longer-name-for-item-number-%d" : "n%d", k);
+					const char *name = (x & 0x10000) ? nm : 0;
+					const char *what = "?";
+					switch (act) {
+					case 0: { what = "add_layout"; give(P(LY[i]->id()), [&] { int r; { Sut su(fn); r = G->add_layout(LY[i], (x >> 11) & 1); fired = g.fired; } return r >= 0; }); break; }
+					case 1: { what = "remove_layout"; if (!is_alive(P(LY[i]->id()))) break; Sut su; G->remove_layout(LY[i]); break; }
+					case 2: { what = "layout append graph"; if (!is_alive(P(LY[i]->id()))) break;
+						give(P(GR[j]->id()), [&] { identifier id; if (name) id.set_name(name); int r; { Sut su(fn); r = LY[i]->append(name ? &id : 0, GR[j]); fired = g.fired; } return r >= 0; }); break; }
+					case 3: { what = "graph append world/axis"; if (!is_alive(P(GR[j]->id()))) break;
+						metatype *m = (x & 0x40000) ? static_cast<metatype *>(WD[w]) : static_cast<metatype *>(AX[w]);
+						give(P(m), [&] { identifier id; if (name) id.set_name(name); int r; { Sut su(fn); r = GR[j]->append(name ? &id : 0, m); fired = g.fired; } return r >= 0; }); break; }
+					case 4: { what = "layout bind"; if (!is_alive(P(LY[i]->id()))) break; Sut su(fn); LY[i]->bind(0, 0); fired = g.fired; break; }
+					case 5: { what = "graph bind"; if (!is_alive(P(GR[j]->id()))) break; Sut su(fn); GR[j]->bind(0, 0); fired = g.fired; break; }
+					case 6: { what = "add_world"; if (!is_alive(P(GR[j]->id()))) break;
+						if (x & 0x40000) give(P(WD[w]->id()), [&] { void *it; { Sut su(fn); it = GR[j]->add_world(WD[w], name); fired = g.fired; } return it != 0; });
+						else { Sut su(fn); GR[j]->add_world(0, name); fired = g.fired; }
+						break; }
+					case 7: { what = "add_axis"; if (!is_alive(P(GR[j]->id()))) break;
+						if (x & 0x40000) give(P(AX[w]->id()), [&] { void *it; { Sut su(fn); it = GR[j]->add_axis(AX[w], name); fired = g.fired; } return it != 0; });
+						else { Sut su(fn); GR[j]->add_axis(0, name); fired = g.fired; }
+						break; }
+					case 8: { what = "graph cycle()"; if (!is_alive(P(GR[j]->id()))) break;
+						long n = (long) GR[j]->worlds().size(); if (!n) break; int pos = (int) ((x >> 20) % (uint32_t) n);
+						if (!GR[j]->worlds().nth(pos)->instance()) break;
+						const reference<cycle> *r; { Sut su; r = GR[j]->cycle(pos); }
+						if (r && r->instance()) { Sut su; hc[w] = *r; st.hit("probe:graph_cycle_copied"); }
+						break; }
+					case 9: { what = "graph set_cycle"; if (!is_alive(P(GR[j]->id())) || !is_alive(P(CY[w]->id()))) break;
+						long n = (long) GR[j]->worlds().size(); if (!n) break; int pos = (int) ((x >> 20) % (uint32_t) n);
+						if (!GR[j]->worlds().nth(pos)->instance()) break;
+						reference<cycle> tmp(CY[w]); { Sut su; GR[j]->set_cycle(pos, tmp); } tmp.detach(); st.hit("probe:graph_cycle_set");
+						break; }
+					case 10: { what = "mapping set_cycle";
+						laydest d((uint8_t) i, (uint8_t) j, (uint8_t) ((x >> 20) & 1));
+						if (x & 0x40000) give(P(CY[w]->id()), [&] { bool r; { Sut su(fn); r = M->set_cycle(d, CY[w]); fired = g.fired; } return r; });
+						else { Sut su(fn); M->set_cycle(d, 0); fired = g.fired; }
+						break; }
+					case 11: { what = "mapping set/get/clear cycles";
+						graphic::hint h((x & 0x100000) ? i : -1, (x & 0x200000) ? j : -1, (x & 0x400000) ? w : -1);
+						unsigned v = (x >> 24) % 4;
+						Sut su(fn);
+						if (v == 0) M->set_cycles(G->_layouts.elements(), h); else if (v == 1) M->get_cycles(G->_layouts.elements(), h); else if (v == 2) M->clear_cycles(h); else M->clear();
+						fired = g.fired; break; }
+					case 12: { what = "clone";
+						if (x & 0x40000) { if (clone_g) { Sut su; clone_g->unref(); clone_g = 0; } else if (is_alive(P(GR[j]->id()))) { Sut su(fn); clone_g = GR[j]->clone(); fired = g.fired; } }
+						else { if (clone_l) { Sut su; clone_l->unref(); clone_l = 0; } else if (is_alive(P(LY[i]->id()))) { Sut su(fn); clone_l = LY[i]->clone(); fired = g.fired; } }
+						break; }
+					case 13: case 14: { what = "harness take/drop";
+						PObj &o = po[(x >> 20) % po.size()];
+						if (o.mine > 0 && (x & 0x40000)) { --o.mine; Sut su; o.mt->unref(); }
+						else if (is_alive(o) && o.mine < 3) { uintptr_t r; { Sut su; r = o.mt->addref(); } if (!r) fail("refused-valid", "%s %d refused a reference", o.what, o.nr); ++o.mine; }
+						break; }
+					}
+					if (fired) st.hit("fault:allocfail");
+					log.ev("    plot %s%s", what, fired ? " (allocation failed)" : "");
+					verify(what);
+				}
+				// the holders go away, top-down
+				{ Sut su; if (clone_g) clone_g->unref(); if (clone_l) clone_l->unref(); delete M; delete G; }
+				verify("the graphic and the mapping went away");
+				for (int level = 0; level < 4; ++level) {
+					for (auto &o : po) if (o.level == level) {
+						if (!is_alive(o)) continue;
+						if (o.mine == 0) fail("never-destroyed", "%s %d is still alive (count %ld) although every holder above it is gone and the harness holds nothing", o.what, o.nr, o.count());
+						if (o.count() != o.mine) fail(o.count() > o.mine ? "never-destroyed" : "count-mismatch", "%s %d counts %ld reference(s) when only the harness' %ld are left", o.what, o.nr, o.count(), o.mine);
+						while (o.mine > 0) { --o.mine; Sut su; o.mt->unref(); }
+						if (is_alive(o)) fail("never-destroyed", "%s %d survived its last reference", o.what, o.nr);
+					}
+					if (level == 2) for (auto &h : hc) if (h.instance()) { if (!cycle_alive(h.instance())) fail("destroyed-early", "a cycle went away with the graph although a copy of the reference exists"); Sut su; h.set_instance(0); }
+					check_pending();
+				}
+				if (ledger_live() != led0) fail("never-destroyed", "%zu block(s) more than before the plot episode are still allocated: %s", ledger_live() - led0, ledger_describe().c_str());
+				log.ev("PLOT_OBJECTS episode");
+				outcome = 1;
+				break;
+			}
+			case OP_ADD_ITEMS: {
+				// a node list is added to a layout: nodes carrying a shareable object hand the group a reference of its own,
+				// nodes named "<type> <name>" create an item, everything else is a property
+				uint32_t x = (uint32_t) op.c * 2654435761u + 3u + (uint32_t) op.b * 7919u;
+				size_t led0 = ledger_live();
+				long before[3]; for (int i = 0; i < 3; ++i) before[i] = alive(i) ? obj[i]->refs : -1;
+				Tr<layout> *L; { Sut su; L = new Tr<layout>; }
+				const void *lid = L->id();
+				std::vector<node *> nodes; long nodeheld[3] = {0, 0, 0};
+				int nn = 1 + (int) ((x >> 28) % 4);
+				static const char *const names[] = {"graph g1", "graph g2", "world w1", "axis a1", "line l1", "text t1", "alias", "name", "graph g1", "bogus b1", "graph", "xaxis x1"};
+				for (int k = 0; k < nn; ++k) {
+					x = x * 1664525u + 1013904223u;
+					unsigned kind = (x >> 12) % 4; int o = (int) ((x >> 16) % 3);
+					const char *nm = names[(x >> 20) % 12];
+					node *n; { Sut su; n = mpt_node_new(strlen(nm) + 1); if (n && !mpt_identifier_set(&n->ident, nm, -1)) { mpt_node_destroy(n); n = 0; } }
+					if (!n) continue;
+					if (kind == 0 && alive(o) && model[o] == 1) { uintptr_t r; { Sut su; r = obj[o]->addref(); } if (r) { n->_meta = obj[o]; ++nodeheld[o]; } }
+					else if (kind == 1) { const char *txt = "text"; value v; v.set('s', &txt); Sut su; n->_meta = mpt_meta_new(&v); }
+					if (!nodes.empty()) { nodes.back()->next = n; n->prev = nodes.back(); }
+					nodes.push_back(n);
+				}
+				uint64_t fn = op.fault == FL_ALLOC ? (uint64_t) std::max<int64_t>(op.fa, 1) : 0; bool fired = false, ok = false;
+				if (!nodes.empty()) { Sut su(fn); ok = add_items(*L, nodes[0], 0, 0); fired = g.fired; }
+				if (fired) st.hit("fault:allocfail");
+				check_pending();
+				long groupheld[3] = {0, 0, 0}; long created = 0;
+				if (!g_plot_live.count(lid)) fail("destroyed-early", "the layout was destroyed by add_items");
+				for (auto &it : L->items()) { metatype *m = it.instance(); if (!m) continue; int i = idx(m); if (i >= 0) ++groupheld[i]; else ++created; }
+				log.ev("ADD_ITEMS %d node(s) -> %d%s: %ld shared object(s) and %ld created item(s) in the layout", nn, (int) ok, fired ? " (allocation failed)" : "", groupheld[0] + groupheld[1] + groupheld[2], created);
+				for (int i = 0; i < 3; ++i) if (before[i] >= 0) {
+					if (!alive(i)) fail("destroyed-early", "object %d was destroyed by add_items while a node and %ld item(s) reference it", i, groupheld[i]);
+					if (obj[i]->refs != before[i] + nodeheld[i] + groupheld[i]) fail("count-mismatch", "after add_items object %d counts %ld references: %ld before, %ld node(s) and %ld layout item(s) hold it", i, obj[i]->refs, before[i], nodeheld[i], groupheld[i]);
+				}
+				if (groupheld[0] + groupheld[1] + groupheld[2]) st.hit("probe:add_items_shared_object");
+				if (created) st.hit("probe:add_items_created_item");
+				{ Sut su; L->unref(); }
+				if (g_plot_live.count(lid)) fail("never-destroyed", "the layout survived its only reference");
+				check_pending();
+				for (int i = 0; i < 3; ++i) if (before[i] >= 0 && (!alive(i) || obj[i]->refs != before[i] + nodeheld[i]))
+					fail(alive(i) && obj[i]->refs > before[i] + nodeheld[i] ? "never-destroyed" : "destroyed-early", "after the layout went away object %d counts %ld references, %ld expected (%ld node(s) hold it)", i, alive(i) ? obj[i]->refs : 0, before[i] + nodeheld[i], nodeheld[i]);
+				for (node *n : nodes) { n->next = n->prev = 0; Sut su; mpt_node_destroy(n); }
+				check_pending();
+				for (int i = 0; i < 3; ++i) if (before[i] >= 0 && (!alive(i) || obj[i]->refs != before[i]))
+					fail(alive(i) && obj[i]->refs > before[i] ? "never-destroyed" : "destroyed-early", "after the nodes went away object %d counts %ld references, %ld before the episode", i, alive(i) ? obj[i]->refs : 0, before[i]);
+				if (ledger_live() != led0) fail("never-destroyed", "%zu block(s) more than before add_items are still allocated: %s", ledger_live() - led0, ledger_describe().c_str());
+				outcome = ok;
 				break;
 			}
 			case OP_BUF_CLONE: {
